@@ -30,7 +30,7 @@ Mutants (checks/mutants/X15), all exit 1:
   no-v4-sockopt         setUDPSocketOptions asks for IPv6 packet-info only       exchange udp4-any (no context), server
   server-no-sockopt     ActivateAndServe does not prepare the socket             server udp4-any:server (to 127.0.0.2)
   ifindex-99            reply pins interface 99                                  pure; udpsession/write-error
-  oob-short             ReadFromSessionUDP keeps 4 octets less of the data       exchange (malformed context)
+  oob-short             ReadFromSessionUDP keeps 8 octets less of the data       exchange (malformed context)
 """
 import os, json
 import vp
